@@ -159,6 +159,20 @@ def r01_4(ctx):
     ctx.floor("R01.4", 30)
 
 
+def r12_4_state(ctx):
+    """R12.4 without its interpolation clause: C01 needs the solver to continue from the grid state after it has reported
+    an output (round-5 seed); how the value between two grid states is formed is C12's business."""
+    from . import c12
+    return c12.r12_4(ctx, interpolant=False)
+
+
+def r12_4_state(ctx):
+    """R12.4 without its interpolation clause: C01 needs the solver to continue from the grid state after it has reported
+    an output (round-5 seed); how the value between two grid states is formed is C12's business."""
+    from . import c12
+    return c12.r12_4(ctx, interpolant=False)
+
+
 def run(ctx):
     ctx.guard(r01_1)
     from . import integrate_kit
@@ -182,4 +196,4 @@ def run(ctx):
     # the state the solver carries from one output interval to the next is a grid state: emitting an output must leave the
     # loop state untouched (continuing from an interpolated value costs O(sqrt(dt)) at every later output) -- rule of C12
     from . import c12
-    ctx.guard(c12.r12_4)
+    ctx.guard(r12_4_state)
